@@ -84,10 +84,11 @@ func (svcRT) RoundTrip(req *http.Request) (*http.Response, error) {
 // ---------------------------------------------------------------- reference model of one route's authentication
 
 type authModel struct {
-	kind  string // open | basic | hmac | forward
+	kind  string // open | basic | hmac | forward | any (one of alts; none: nothing authenticates)
 	users map[string]string
 	hm    *hmacCfg
 	url   string
+	alts  []authModel
 }
 
 const rlRoute = "/s"
@@ -104,12 +105,29 @@ func (m authModel) accepts(c *reqCase, now time.Time) bool {
 		st, ok := svcStatus(m.url, headerValues(c.Hdrs, "X-Api-Key"))
 		acc, _ := forwardVerdict(fwdBehaviour{Mode: "status", Status: st})
 		return ok && acc
+	case "any":
+		for _, a := range m.alts {
+			if a.accepts(c, now) {
+				return true
+			}
+		}
 	}
 	return false
 }
 
 // refusal: the status the statement assigns when the request does not authenticate.
 func (m authModel) refusal(c *reqCase) []int {
+	if m.kind == "any" {
+		if len(m.alts) == 0 {
+			// nothing authenticates: the statement's refusals are 401, 403 or 503
+			return []int{http.StatusUnauthorized, http.StatusForbidden, http.StatusServiceUnavailable}
+		}
+		var out []int
+		for _, a := range m.alts {
+			out = append(out, a.refusal(c)...)
+		}
+		return out
+	}
 	if m.kind == "forward" {
 		st, ok := svcStatus(m.url, headerValues(c.Hdrs, "X-Api-Key"))
 		b := fwdBehaviour{Mode: "status", Status: st}
